@@ -38,6 +38,8 @@ def main():
     ap.add_argument("--keep", default="", help="store under /verif/seeded/<name>/ when confirmed (patch.diff, demo.py, notes.md, meta.json)")
     ap.add_argument("--property", default="")
     ap.add_argument("--patch", default="patch.diff", help="patch file name inside the directory (e.g. patch_ported.diff)")
+    ap.add_argument("--benign", action="store_true", help="the change is meant to KEEP the property: confirmed when the demo exits 0 with and without it; "
+                    "kept under /verif/benign/, verdict QUIET (rc 0) is the wanted one, ALARM (rc 1) a false alarm to look into")
     a = ap.parse_args()
     d = os.path.abspath(a.dir)
     patch = os.path.join(d, a.patch)
@@ -75,7 +77,7 @@ def main():
             env2 = {**os.environ, "ASYNCFIX_SRC": wt, "VERIF_SEED": a.seed, "VERIF_OUT": wt + "_out"}
             rc, o, e = sh(["/verif/check", p, "--tier", a.tier], env=env2, timeout=7200)
             sigs = [ln.strip()[:260] for ln in o.splitlines() if ln.strip().startswith("sig=")]
-            res["checks"][p] = {"rc": rc, "verdict": {0: "MISSED", 1: "CAUGHT"}.get(rc, "HARNESS-ERROR"), "sigs": sigs[:6],
+            res["checks"][p] = {"rc": rc, "verdict": ({0: "QUIET", 1: "ALARM"} if a.benign else {0: "MISSED", 1: "CAUGHT"}).get(rc, "HARNESS-ERROR"), "sigs": sigs[:6],
                                 "tail": (o.strip().splitlines() or [""])[-1][:300]}
             if rc not in (0, 1):
                 res["checks"][p]["err"] = (o + e)[-1500:]
@@ -86,11 +88,13 @@ def main():
     print("SEEDCHECK", json.dumps(res, indent=1))
     c = res["confirm"]
     confirmed = c.get("demo_clean_rc") == 0 and c.get("pytest_rc") == 0 and c.get("demo_patched_rc") not in (0, None, 124)
+    if a.benign:
+        confirmed = c.get("demo_clean_rc") == 0 and c.get("pytest_rc") == 0 and c.get("demo_patched_rc") == 0
     if a.keep:
         if not confirmed and not a.skip_confirm:
             print("NOT CONFIRMED - not kept")
             return 4
-        dst = os.path.join("/verif/seeded", a.keep)
+        dst = os.path.join("/verif/benign" if a.benign else "/verif/seeded", a.keep)
         os.makedirs(dst, exist_ok=True)
         for f in ("patch.diff", "demo.py", "notes.md"):
             if os.path.exists(os.path.join(d, f)) and os.path.abspath(d) != os.path.abspath(dst):
@@ -102,6 +106,7 @@ def main():
             "property": a.property or meta.get("property", ""),
             "needs_to_manifest": meta.get("needs_to_manifest") or notes.strip()[:1500],
             "origin": "independent sub-agent given only the property text and a scratch worktree",
+            **({"kind": "benign: the property still holds with this change; a check that exits 1 on it raises a false alarm"} if a.benign else {}),
             "confirmed": {**meta.get("confirmed", {}), **({} if a.skip_confirm else {
                 "repo_head": subprocess.run(["git", "-C", "/repo", "rev-parse", "--short", "HEAD"], capture_output=True, text=True).stdout.strip(),
                 "demo_on_clean_tree_rc": c.get("demo_clean_rc"), "pinned_tests_with_patch": c.get("pytest"), "demo_with_patch_rc": c.get("demo_patched_rc"),
